@@ -23,6 +23,12 @@ func Lookup(id string) func(*core.Ctx) {
 			runPar(c, f)
 			return
 		}
+		if c.Mode == "readers" {
+			if rf := readersFns[c.Prop]; rf != nil {
+				rf(c)
+				return
+			}
+		}
 		f(c)
 	}
 }
